@@ -48,6 +48,48 @@ CLAIMS = {
              'attribute types involved (NaN excepted).  Transitivity on '
              'floating-point data and array-like conversion of arbitrary '
              'inputs are not decided.'),
+    'C03': dict(
+        cat='proof', ref='DESIGN.md section 2, C03',
+        tech='effect/alias dataflow per path over every Operator._call '
+             '(typestate of the out buffer, write effects on the input), '
+             'path rule over Operator.__call__',
+        text='Every _call of every Operator subclass outside contrib '
+             '(>100 definitions, closure classes included, inherited _call '
+             're-analysed per subclass that overrides its helpers) is '
+             'analysed path by path: no write effect reaches the input, the '
+             'first effect on out is a full write so previous contents are '
+             'never read, the in-place arm returns None or the object out '
+             'and the out-of-place arm returns a value on every path; '
+             'Operator.__call__ is proved to test/cast the domain, test out '
+             'against the range, and check the returned identity on every '
+             'path.  This covers all operator classes and all initial '
+             'contents of out, which sampled calls cannot.',
+        note='Trusted: ' + TB + '. Summaries (not inlined): finite_diff, '
+             'resize_array, point_collocation, pyfftw_call, '
+             'dft_pre/postprocess_data; third-party tomography back ends '
+             'are exempt.  Two reviewed single-construct exceptions '
+             '(ProximalHuber complementary masks, ProductSpaceOperator row '
+             'bookkeeping).  Arm value equivalence (R5) and NaN-kill '
+             'semantics of set_zero are covered only when the value-'
+             'numbering rules are listed in the evidence.'),
+    'C10': dict(
+        cat='proof', ref='DESIGN.md section 2, C10',
+        tech='read-after-write typestate under the alias assumption x is '
+             'out (effect/alias dataflow with one shared cell)',
+        text='For all 13 proximal operator classes, the proximal closure '
+             'classes of the functionals, the ten operator-arithmetic '
+             'classes and the default/product-space operators, the in-place '
+             '_call is analysed with x and out bound to one cell: any read '
+             'of the input through x after the first write is a violation '
+             'unless x was rebound to a copy taken before.  Aliased solver '
+             'call sites are enumerated and must resolve to such operators.'
+             '  Decides the hazard for every input, not for sampled ones.',
+        note='Trusted: ' + TB + '. Element-wise API calls read their '
+             'operands before writing out within one call; lincomb is '
+             'aliasing-safe (C01).  Operators whose domain differs from the '
+             'range by construction are listed in NOT_ALIASABLE with the '
+             'reason.  Reviewed exceptions: ProximalHuber masked writes, '
+             'ProductSpaceOperator.'),
 }
 
 NOT_YET = 'check not implemented yet in this commit (DESIGN.md section 6 build order)'
